@@ -9,6 +9,7 @@ import McpModel.Wire.LemmasInput
 import McpModel.Wire.LemmasSse
 import McpModel.Wire.LemmasBytes
 import McpModel.Wire.LemmasConc
+import McpModel.Wire.LemmasRef
 /-!
 # C19 (and the E2 part of C02) — property theorems of the wire engine
 
@@ -184,6 +185,34 @@ theorem concurrent_writes_framed (ws : List (List Bytes)) (ops : List CWOp)
 /-- non-vacuity: two writers, frames in two pieces each; the second cannot get in between -/
 example : (CW.run { waiting := [[[1], [2, 10]], [[3], [4, 10]]] } [.acquire 1, .piece, .acquire 0, .piece, .acquire 0, .piece, .piece]).out
     = [3, 4, 10, 1, 2, 10] := by decide
+
+/-! ## the `CompleteReference` codec -/
+
+/-- **ref_roundtrip.** Every reference `CompleteReference.MarshalJSON` accepts decodes (`UnmarshalJSON`) from
+what it wrote to itself. -/
+theorem ref_roundtrip (r : CRef) (v : JVal) (h : encodeRef r = .ok v) : decodeRef v = .ok r :=
+  L.ref_roundtrip r v h
+
+/-- **ref_encode_validates.** `MarshalJSON` writes exactly the consistent references: one of the two known types
+and only that type's own member (`name` for a prompt, `uri` for a resource). -/
+theorem ref_encode_validates (r : CRef) :
+    (∃ v, encodeRef r = .ok v) ↔ ((r.typ = refPromptType ∧ r.uri = []) ∨ (r.typ = refResourceType ∧ r.name = [])) :=
+  L.ref_encode_validates r
+
+/-- **ref_decode_validates.** Whatever `UnmarshalJSON` accepts — from ANY JSON value — is consistent: `MarshalJSON`
+writes it again, and that decodes to the same reference. -/
+theorem ref_decode_validates (v : JVal) (r : CRef) (h : decodeRef v = .ok r) :
+    ∃ v', encodeRef r = .ok v' ∧ decodeRef v' = .ok r :=
+  L.ref_decode_validates v r h
+
+/-- the member names are matched exactly: a reference whose type stands under `Type` has no type -/
+theorem ref_decode_case_sensitive (n u : Bytes) :
+    decodeRef (.obj [([84, 121, 112, 101], .str refPromptType), (CompleteReference_Name_name, .str n), (CompleteReference_URI_name, .str u)])
+      = .error .unknownType :=
+  L.ref_decode_case_sensitive n u
+
+example : encodeRef ⟨refPromptType, [112], []⟩ = .ok (.obj [([116, 121, 112, 101], .str refPromptType), ([110, 97, 109, 101], .str [112])]) := by
+  decide
 
 /-- **logging_transparent.**  A `LoggingTransport` hands every message on unchanged, in both directions: what
 its `Read` returns is what the delegate's `Read` returned, what its `Write` does to the stream is what the
